@@ -1,6 +1,6 @@
 import CallbagModel.Ops.Pipeline
 import CallbagModel.Script
-import CallbagModel.Closed.LinearDef
+import CallbagModel.Closed.ProgDef
 /-!
 # Pipelines (C06): parse the textual description shared with harness/src/pipe.rs, evaluate the model (`sem`, `listSem`), compare
 -/
@@ -90,12 +90,24 @@ def toStg : Sx → Option (Closed.Stg × Sx)
   | .list [.atom "skip", n, p] => (sxNat n).map fun n => (.skip n, p)
   | _ => none
 
-/-- … as ONE machine.  Linear programs: `Closed.chainM xs ss` — the term `Closed.linear_correct` (Closed/Linear.lean) is about.
-Programs with `concat!`: every member is built recursively and PLUGGED into its slot of the n-ary concat machine (`Ops/Plug.lean`),
-and stages applied to the result are composed on top.  `flatmap` creates sources dynamically and has no static network: `none`. -/
+/-- programs of sources, unary stages and BINARY `concat!` as syntax (`Closed/ProgDef.lean`) -/
+partial def toProg (sx : Sx) : Option Closed.Prog :=
+  match sx with
+  | .list [.atom "src", n] => (sxNat n).map fun n => .src (rangeFrom 1 n)
+  | .list [.atom "src", n, a] => match sxNat n, sxInt a with | some n, some a => some (.src (rangeFrom a n)) | _, _ => none
+  | .list [.atom "inf", a] => (sxInt a).map fun a => .src (rangeFrom a infLen)
+  | .list [.atom "concat", p, q] => match toProg p, toProg q with | some p, some q => some (.concat p q) | _, _ => none
+  | _ => match toStg sx with
+    | some (st, p) => (toProg p).map fun p => .stage st p
+    | none => none
+
+/-- … as ONE machine.  Programs of sources, unary stages and binary `concat!`: `Closed.Prog.toM` — the term `Closed.prog_correct`
+(Closed/Prog.lean) is about; for linear programs it is the term `Closed.chainM xs ss` of `Closed.linear_correct`.  An n-ary `concat!`
+(n ≥ 3) is built by plugging every member into the n-ary concat machine (`Closed.concatM`; no theorem, the comparison only), stages on
+top composed.  `flatmap` creates sources dynamically and has no static network: `none`. -/
 partial def toAnyM (sx : Sx) : Option Closed.AnyM :=
-  match toLinear sx with
-  | some (xs, ss) => some (Closed.chainM xs ss)
+  match toProg sx with
+  | some p => some p.toM
   | none =>
     match sx with
     | .list (.atom "concat" :: ms) => (ms.mapM toAnyM).map Closed.concatM
